@@ -366,6 +366,38 @@ def m_opt_as_ref(I, st, call):
     return out
 
 
+@model("core::option::Option::<T>::filter")
+def m_opt_filter(I, st, call):
+    """Some(x) stays Some(x) exactly when the predicate holds for &x"""
+    sp = split_variants(I, st, call.args[0], call.arg_tys[0])
+    if sp is None:
+        return None
+    dt = call.dest_ty
+    f, fty = call.args[1], call.arg_tys[1]
+    out = []
+    for s, vi, p in sp:
+        if vi == 0:
+            out.append((s, mk_none(dt)))
+            continue
+        x = p.fields[0] if isinstance(p, StructV) and p.fields else TopV(None)
+        I.nsym += 1
+        key = ("h", "filteritem*%d" % I.nsym)
+        s.cells[key] = x
+        rs = call_fn_value(I, s, call, f, fty, [RefV(Place(key), False)], "filter")
+        if rs is None:
+            return None
+        for s2, rv in rs:
+            rv = I.as_int(s2, rv, BOOL, "pred")
+            c = rv.cond if rv.cond is not None else ("cmp", "Ne", rv.aff, Aff.const(0))
+            s3 = s2.copy()
+            for s4 in assume(s2, c, True):
+                out.append((s4, mk_option(I, x, dt)))
+            for s4 in assume(s3, c, False):
+                s4.cells[("gh", "filtered-out")] = x      # what is known about the rejected item stays available
+                out.append((s4, mk_none(dt)))
+    return out
+
+
 @model("core::option::Option::<core::result::Result<T, E>>::transpose")
 def m_opt_transpose(I, st, call):
     """None -> Ok(None); Some(Ok(x)) -> Ok(Some(x)); Some(Err(e)) -> Err(e)"""
